@@ -103,6 +103,9 @@ func runC10(c *engine.Ctx) {
 
 	// ---- R15 a proxy type uses one port manager, of its protocol (shared with C09.R6) ----
 	checkPortBookkeeping(c, "R15")
+
+	// ---- R16 a closed listener / removed route is not served from a memo (shared with C06.R13) ----
+	checkFreshLookup(c, "R16")
 }
 
 // checkQueuedClosureCaptures: a closure that is stored for later execution (appended to a closeFuncs-like slice field)
@@ -144,10 +147,35 @@ func checkQueuedClosureCaptures(c *engine.Ctx, rule string) {
 				bad := ""
 				for _, b := range mc.Bindings {
 					al, ok := b.(*ssa.Alloc)
+					at := mc
 					if !ok {
-						continue
+						// the hook is created inside a local helper closure and captures a variable of an enclosing
+						// function: judged from the point where that helper closure was created
+						cur := f
+						v := b
+						for d := 0; d < 3 && !ok; d++ {
+							fv, isFV := v.(*ssa.FreeVar)
+							if !isFV || cur.Parent() == nil {
+								break
+							}
+							var outer *ssa.MakeClosure
+							engine.ForEachInstr(cur.Parent(), func(x ssa.Instruction) {
+								if m2, isMC := x.(*ssa.MakeClosure); isMC && m2.Fn == cur {
+									outer = m2
+								}
+							})
+							v = engine.ClosureBinding(fv)
+							if outer == nil || v == nil {
+								break
+							}
+							at, cur = outer, cur.Parent()
+							al, ok = v.(*ssa.Alloc)
+						}
+						if !ok {
+							continue
+						}
 					}
-					if w := writtenAfter(mc, al); w != nil {
+					if w := writtenAfter(at, al); w != nil {
 						bad = fmt.Sprintf("captured variable %s is written again at %s after the closure was queued: when the hook finally runs it sees the last value, not the one it was created for", al.Comment, p.Pos(posOf(w)))
 					}
 				}
@@ -601,18 +629,47 @@ func checkWorkerTeardown(c *engine.Ctx) {
 			if src.Values[drainRecv.(ssa.Value)] {
 				drainOK = true
 			}
-			if engine.SameFunc(engine.CalleeObj(call), pxyClose) && src.Values[rangeProxies.(ssa.Value)] {
-				pxyCloseOK = true
+			if engine.SameFunc(engine.CalleeObj(call), pxyClose) {
+				if src.Values[rangeProxies.(ssa.Value)] || engine.DeepSources(p, engine.CallArgs(call)[0]).Values[rangeProxies.(ssa.Value)] {
+					pxyCloseOK = true // (the proxy may reach a shared release step as its parameter)
+				}
 			}
 		}
 		if engine.IsCallTo(in, del) {
 			src := engine.Provenance(engine.CallArgs(call)[1], engine.ProvOpts{})
-			if src.Values[rangeProxies.(ssa.Value)] {
+			if src.Values[rangeProxies.(ssa.Value)] || engine.DeepSources(p, engine.CallArgs(call)[1]).Values[rangeProxies.(ssa.Value)] {
 				delOK = true
 			}
 		}
 	})
 	c.Check(drainOK, key+">drain-closes", drainRecv.Pos(), 2, nil, "every connection drained from the closed pool is closed")
+	// … on every path: between taking a connection out of the closed pool and the next one (or the end) it is closed —
+	// none is kept, parked elsewhere or handed to another session
+	if dg := drainRecv.Parent(); dg != nil {
+		c.AllPaths(key+">drain-closes-each", engine.PathCheck{Fn: dg, From: drainRecv, KeepLoopFacts: true,
+			Sink: func(in ssa.Instruction) bool { return engine.IsReturn(in) || in == drainRecv },
+			Event: func(in ssa.Instruction) string {
+				if call, ok := in.(ssa.CallInstruction); ok && isCloserClose(call) {
+					if engine.Provenance(engine.CallArgs(call)[0], engine.ProvOpts{NoArgs: true}).Values[drainRecv.(ssa.Value)] {
+						return "closed"
+					}
+				}
+				return ""
+			},
+			Pred: func(st *engine.PathState) string {
+				// the receive reported the pool empty: nothing was taken
+				if v, k := st.Truth(func(x ssa.Value) bool {
+					ex, ok := x.(*ssa.Extract)
+					return ok && ex.Index == 1 && ex.Tuple == drainRecv.(ssa.Value)
+				}); k && !v {
+					return ""
+				}
+				if !st.HasEvent("closed") {
+					return "a connection taken out of the ended session's pool is not closed on this path (kept or handed elsewhere): its client end belongs to the dead session"
+				}
+				return ""
+			}}, "each drained connection is closed before the next is taken")
+	}
 	c.Check(pxyCloseOK, key+">proxies-closed", rangeProxies.Pos(), 2, nil, "every proxy of the session table is closed")
 	c.Check(delOK, key+">names-removed", rangeProxies.Pos(), 2, nil, "every proxy of the session table is removed from the name registry (by its own name)")
 	// ordering: on every path to close(doneCh): pool closed before; and the proxies loop header was visited; nothing after
@@ -685,6 +742,12 @@ func checkCloseProxy(c *engine.Ctx) {
 	ev := func(in ssa.Instruction) string {
 		if call, ok := in.(ssa.CallInstruction); ok {
 			if _, isDefer := in.(*ssa.Defer); isDefer {
+				// `defer ctl.mu.Unlock()`: the lock is released when the function returns
+				if o := engine.CalleeObj(call); o != nil && o.Pkg() != nil && o.Pkg().Path() == "sync" && o.Name() == "Unlock" && len(engine.CallArgs(call)) > 0 {
+					if lf, _ := engine.LoadedField(engine.CallArgs(call)[0]); lf == muF {
+						return "deferred-unlock"
+					}
+				}
 				return ""
 			}
 			o := engine.CalleeObj(call)
@@ -737,6 +800,9 @@ func checkCloseProxy(c *engine.Ctx) {
 			return "CloseProxy exits without having looked the proxy up in the session's own table"
 		}
 		li, ui := st.EventIndex("lock"), st.EventIndex("unlock")
+		if st.HasEvent("deferred-unlock") && li >= 0 && st.EventIndex("deferred-unlock") > li {
+			ui = len(st.Events) // released at the return
+		}
 		if li < 0 || ui < li {
 			return "CloseProxy returns with the session lock still held (or never taken)"
 		}
@@ -1036,7 +1102,7 @@ func checkWrapperCloseFns(c *engine.Ctx, rule string) {
 			}
 		})
 	}
-	c.Floor(n, 6)
+	c.Floor(n, 3)
 }
 
 // checkOrderedHandlers: control messages that change the session's proxy table (NewProxy, CloseProxy) are handled in
